@@ -1,7 +1,7 @@
 (* C11 — A stream of pickles decodes one value per call, each as if it stood alone. *)
 From Coq Require Import List ZArith NArith Bool.
 From Coq.Strings Require Import Byte.
-From OgRek Require Import Base Value Reader Decoder Insn PyVM2 DecoderFacts StreamFacts ExecFacts SimFacts AloneFacts.
+From OgRek Require Import Base Value Reader Decoder Encoder Norm NormMaps Insn PyVM2 DecoderFacts StreamFacts ExecFacts SimFacts AloneFacts RoundTripMaps.
 Import ListNotations.
 
 (* Exactly through each STOP: if Decode accepts p (consuming all of it), then on p followed by
@@ -79,6 +79,31 @@ Example C11_self_contained_example :
   | _ => False
   end.
 Proof. vm_compute. repeat split; try discriminate. Qed.
+
+(* Streams of Encode output: "as if it stood alone" in full, identities included.  For any list of
+   values written back to back by Encoders at any mix of protocols (same StrictUnicode as the
+   Decoder), each with a normal form (norm2: the C03 fragment with maps, Dicts and structs), any
+   hook meeting hook_spec, ANY prior state of the Decoder (well-formed heap: every reachable state)
+   and any bytes after the stream: successive Decode calls return, one per pickle, a value whose
+   content read through the heap is exactly the normal form of that pickle's value - which does not
+   mention the Decoder's history at all, so it is what a fresh Decoder returns - consuming exactly
+   through each STOP; the heap only grows (gext), so everything returned earlier keeps its content
+   (enc_stream_contents). *)
+Theorem C11_stream_of_encodings : forall pd su load g its st rest,
+  hook_spec load g -> heap_bound st ->
+  Forall (fun it : sitem => let '(c, v, cvl) := it in
+            e_strict c = su /\ (0 <= e_proto c <= 5)%Z /\ norm2 c pd g v = Some cvl) its ->
+  exists xs stf,
+    enc_stream (Build_dconfig pd su load) st (concat (map sbytes its) ++ rest) its xs stf rest /\
+    heap_bound stf.
+Proof. exact decode_stream_of_encodings. Qed.
+Print Assumptions C11_stream_of_encodings.
+
+Theorem C11_returned_values_keep_their_content : forall cfg st inp its xs stf restf,
+  enc_stream cfg st inp its xs stf restf ->
+  Forall (fun xc => content (d_heap stf) (fst xc) (snd xc)) xs.
+Proof. exact enc_stream_contents. Qed.
+Print Assumptions C11_returned_values_keep_their_content.
 
 (* Streams against CPython (stream_rel, Proofs/SimFacts.v).  For EVERY list of instruction programs
    (each ending with its STOP) - self-contained or not, at any mix of protocols, sharing the memo or
